@@ -15,6 +15,8 @@ TRUSTED = ['rustc MIR', 'protobuf2 descriptor enum numbering']
 
 def run(ctx):
     rep = Report('C06')
+    import gen_thrift as _g
+    _g.corpus_generated(rep, 'G06.h')
     prog = mirlib.load_program([ws_facts('ws')])
     cg = mirlib.CallGraph(prog)
     pr.module_facts(rep, 'R06.c', prog, cg)
